@@ -30,6 +30,14 @@ CHECKS = {
    technique="runtime monitor: recover() + structural invariants at quiescent points over a breadth-first exploration of the session state graph (stored snapshot as branch point) and long PRNG walks, on the repository's example applications and generated well-formed ones",
    text="Every example application of the repository and hundreds/thousands of generated well-formed applications are explored breadth-first to depth 4/6 over their whole selector alphabet plus hostile inputs, then walked for up to 400 requests; after every request: no panic, one cache scope per stack level, size accounting exact, limits respected, the session saves, loads and equals the live one.",
    note="States after a failed request are checked but not extended in the exhaustive part. Op cap on callbacks turns runaway execution into a violation; a loop without callbacks is caught by the worker watchdog (inconclusive)."),
+ "C17": dict(engine="sessions-differential", category="exploration", design="§3 C17",
+   technique="runtime monitor: two-run comparison (history with vs without an inserted refused input) in long-lived and persisted drivers, snapshot equality around the refusal, callback log of the refused request",
+   text="For generated applications and histories a refused input (every byte that cannot start an input, '+' forms, newlines, invalid UTF-8, 256..70000 bytes) is inserted at every position; the refused request must fail without callbacks or output, the snapshots around it must be equal, and all later requests must equal the run without it. Flush before the first Exec is checked the same way.",
+   note="The harness's own reading of the accepted input format decides what must be refused. No WithFirst hook installed."),
+ "C19": dict(engine="conc-race", category="exploration", design="§3 C19",
+   technique="Go race detector (-race build, GORACE log parsed and de-duplicated) + transcript equality against a sequential reference + canary check of shared slices, over rounds of 2..16 concurrently served sessions with PRNG yields inside resource callbacks",
+   text="Rounds of 2..16 goroutines each serve an own session (four driver/backend combinations) over one shared application whose code slices have canary-filled spare capacity; any race report with a library frame, any transcript that differs from the same session served alone, or any modified shared byte is a violation. Evidence reports goroutines, callbacks and cross-session switches observed.",
+   note="Covers only the schedules that occurred. Harness-only race reports make the run inconclusive (monitor defect), never a pass."),
 }
 NOT_YET = {}
 ALL = ["C%02d" % i for i in range(1, 21)]
